@@ -53,6 +53,13 @@ let show_stats st =
   Printf.sprintf "%d %d %d %s" (int_of_n st.st_steps) (int_of_n st.st_max_live) (int_of_n st.st_iterations)
     (match st.st_last_cost with Some c -> string_of_int (int_of_n c) | None -> "N")
 
+let show_decoding o = match o with
+  | Ok v -> "ok:" ^ shown v
+  | Err (PixelConversion _) -> "err:PixelConversion"
+  | Err (ErrorCorrection _) -> "err:ErrorCorrection"
+  | Err (DataDecoding e) -> "err:" ^ dec_err_name e
+  | Panic _ -> "panic"
+
 let sym_of (i : int) = match ss_of_index (n_of_int i) with Some s -> s | None -> failwith "bad symbol index"
 
 let dispatch (op : string) (a : string array) : string =
@@ -103,6 +110,38 @@ let dispatch (op : string) (a : string array) : string =
      | Ok ((s, dcw), cw) -> Printf.sprintf "ok %d %s" (int_of_n (variant_index s)) (shown dcw)
      | Err TooMuchOrIllegalData -> "err TooMuchOrIllegalData" | Err SymbolListEmpty -> "err SymbolListEmpty"
      | Panic PBadOracle -> "bad-oracle" | Panic _ -> "panic")
+  | "rt" ->
+    let trace = if Array.length a > 6 then Some (parse_trace a.(6)) else None in
+    let eci = if a.(5) = "N" then None else Some (n_of_int (int_of_string a.(5))) in
+    (match d_rt (nlist a.(0)) (nlist a.(1)) (n_of_int (int_of_string a.(2))) (a.(3) = "1") (a.(4) = "1") eci trace with
+     | Ok (((s, dcw), d1), d2) -> Printf.sprintf "ok %d %s %s %s" (int_of_n (variant_index s)) (shown dcw)
+         (match d1 with Ok v -> "ok:" ^ shown v | Err e -> "err:" ^ dec_err_name e | Panic _ -> "panic") (show_decoding d2)
+     | Err TooMuchOrIllegalData -> "err TooMuchOrIllegalData" | Err SymbolListEmpty -> "err SymbolListEmpty"
+     | Panic PBadOracle -> "bad-oracle" | Panic _ -> "panic")
+  | "str_rt" ->
+    let trace = if Array.length a > 2 then Some (parse_trace a.(2)) else None in
+    if not (List.for_all (fun c -> c < 0xD800 || (c >= 0xE000 && c < 0x110000)) (ints a.(0))) then "not-a-string" else
+    (match d_str_rt (nlist a.(0)) (nlist a.(1)) trace with
+     | Ok ((s, dcw), back) -> Printf.sprintf "ok %d %s %s" (int_of_n (variant_index s)) (shown dcw)
+         (match back with Ok v -> "ok:" ^ shown v | Err e -> "err:" ^ dec_err_name e | Panic _ -> "panic")
+     | Err TooMuchOrIllegalData -> "err TooMuchOrIllegalData" | Err SymbolListEmpty -> "err SymbolListEmpty"
+     | Panic PBadOracle -> "bad-oracle" | Panic _ -> "panic")
+  | "dm_flip_codewords" ->
+    let (r0, r1) = d_dm_flip_codewords (sym_of (int_of_string a.(0))) (nlist a.(1)) (nlist a.(2)) in
+    let s0 = show_decoding r0 and s1 = show_decoding r1 in
+    if s0 = s1 then "same " ^ s1 else "differs " ^ s1 ^ " " ^ s0
+  | "plan_enc" ->
+    let trace = if Array.length a > 3 then Some (parse_trace a.(3)) else None in
+    (match d_plan_enc (nlist a.(0)) (nlist a.(1)) (n_of_int (int_of_string a.(2))) trace with
+     | Ok ((p, e), st) ->
+       let es = (match e with
+         | Ok (cw, s) -> Printf.sprintf "ok %d %s" (int_of_n (variant_index s)) (shown cw)
+         | Err TooMuchOrIllegalData -> "err TooMuchOrIllegalData -" | Err SymbolListEmpty -> "err SymbolListEmpty -"
+         | Panic _ -> "panic - -") in
+       show_plan p ^ " " ^ es ^ " " ^ show_stats st
+     | Panic PBadOracle -> "bad-oracle" | Panic _ -> "panic" | Err _ -> "err")
+  | "dm_decode" -> show_decoding (d_dm_decode (bools a.(1)) (n_of_int (int_of_string a.(0))))
+  | "dm_decode_flips" -> show_decoding (d_dm_decode_flips (sym_of (int_of_string a.(0))) (nlist a.(1)) (nlist a.(2)))
   | "decode_data" -> show_dec shown (d_decode_data (nlist a.(0)))
   | "decode_str" -> show_dec shown (d_decode_str (nlist a.(0)))
   | "read_eci" -> show_dec (fun (n, e) -> Printf.sprintf "%d %d" (int_of_n n) (int_of_n e)) (d_read_eci (nlist a.(0)))
